@@ -360,6 +360,11 @@ theorem step_sinv (s : Server) (op : SrvOp) (h : SInv s) : SInv (s.step op) := b
   | wfail =>
     simp only [Server.step]; split; exact h
     exact emit_sinv s [.writeError] h (traceOk_free _ _ (by simp [PipeOp.free])) (by simp [PipeOp.isReq])
+  | sstop =>
+    simp only [Server.step]; split; exact h
+    unfold Server.sstop
+    have h1 := emit_sinv s [.drop] h (traceOk_free _ _ (by simp [PipeOp.free])) (by simp [PipeOp.isReq])
+    exact sinv_update h1 rfl rfl (fun j hj => hj) (fun _ => Or.inr (Or.inl rfl))
 
 theorem run_sinv (ops : List SrvOp) (s : Server) (h : SInv s) : SInv (ops.foldl Server.step s) := by
   induction ops generalizing s with
